@@ -362,6 +362,31 @@ def rest2(ctx, rep, ev):
     # ---- R3.9 back-ends
     _backends(ctx, ev, rep)
 
+    # ---- R3.10 whole reads: a single `Read::read` may return fewer bytes than asked for (the buffered reader hands
+    # out what is left in its buffer), so the input layer consumes input with `read_exact`, or with `read` inside a
+    # loop that continues until the buffer is filled — a lone `read` turns a packet that straddles a buffer refill into
+    # "end of input"
+    cg_ = ctx.cg()
+    lone = []
+    n_reads = 0
+    for p_ in sorted(ctx.reachable()):
+        if not p_.replace("<", "").startswith(AP):
+            continue
+        fn_ = f.fns.get(p_) if (f := ctx.facts()) else None
+        if not fn_ or not fn_.get("mir"):
+            continue
+        b_ = cg_.body(p_)
+        for bb, t, cal, c in b_.calls():
+            if cal and (cal.endswith("io::Read::read_exact") or cal.endswith("Read>::read_exact")):
+                n_reads += 1
+            elif cal and (cal.endswith("io::Read::read") or cal.endswith("Read>::read")):
+                n_reads += 1
+                if not b_.on_cycle(bb):
+                    lone.append("%s (%s)" % (p_.split("::")[-1], where(t["sp"])))
+    rep.floor("R3.10", n_reads, 2, "input reads in the input layer")
+    rep.check(not lone, "R3.10", "R3.10|whole_reads", "input is consumed by read_exact or by read inside a fill loop (%d read sites)" % n_reads, AP,
+              "a single Read::read outside a loop consumes input in %s: a short read (buffer refill boundary, pipe) is taken for the end of the input" % lone)
+
 
 def _can_reach(b, target):
     """blocks from which target is reachable"""
